@@ -131,6 +131,22 @@ def run(ck):
             excluded += (not is_j)
             nontriv = is_j and any(kk not in ("arith", "enum", "ptr") for kk in s["kinds"])
             ck.case((tuple(s["types"]), s["macro"].split("_")[0] + ("V" if s["macro"].startswith("LOGV") else "") + ("D" if s["dyn"] else "")), nontriv)
+    # information only: allocations seen inside calls, per class and situation (judged calls must show none)
+    seen_allocs, win = {}, {}
+    for ln in lines:
+        if ln["e"] == "Reset":
+            win = {}
+        elif ln["e"] == "LogBegin":
+            win[ln["t"]] = ln
+        elif ln["e"] == "LogEnd":
+            win.pop(ln["t"], None)
+        elif ln["e"] in ("Alloc", "Mmap") and ln["t"] in win:
+            w = win[ln["t"]]
+            key = w["cls"] if w["fits"] else w["cls"] + " (record does not fit)"
+            if w["case"] < 0:
+                key = "first call of the caller thread (calibration)"
+            seen_allocs[key] = seen_allocs.get(key, 0) + 1
+    ck.extra["alloc_events_inside_calls_by_class"] = seen_allocs
     inside = sum(1 for ln in lines if ln["e"] in ("Alloc", "Mmap"))
     if inside == 0:
         raise vlib.Infra("counter sanity: no allocation was observed inside any log call, not even in first calls / excluded classes")
